@@ -295,9 +295,10 @@ def c13(ctx, api):
                                          timeout=3000)
     acc.add('GenSort: lengths %s x 4 key patterns x {number, string keys} x %d seeds x 10 expressions'
             % (lengths, 8 if thorough else 1), st, summ)
-    tv = api['run_trace_validation'](ctx, 'sort-traces', 600 if thorough else 150, ctx['seed'], corpus=False, mode='sort')
+    tv = api['run_trace_validation'](ctx, 'sort-traces', 400 if thorough else 96, ctx['seed'], corpus=False, mode='sort',
+                                     maxlen=200 if thorough else 100)
     acc.add_traces('trace validation: sort_by / max_by / min_by / sort / group_by on random arrays of 13..200 elements with many ties, '
-                   'recorded from the real Search and checked by TLC against the specification sort', tv)
+                   'recorded from the real Search and checked by TLC against the specification sort (quick: up to 100 elements)', tv)
     return acc.result(RULE_PINNED, extra={'model_checks': ['Permutation', 'Ordered', 'TiesKeepInputOrder']})
 
 
